@@ -237,7 +237,7 @@ def resolve_op(overloads, op, operands, paren_assignable):
         ra, rb = sum(p.ref for p in a.params), sum(p.ref for p in b.params)
         return ra > rb
     best = [c for c in cands if not any(better(o, c) for o in cands)]
-    return best, len(cands)
+    return best, len(cands), cands
 
 
 # ---------------------------------------------------------------- how the prelude's `Zeig <v>` prints a value
